@@ -246,6 +246,17 @@ def reader_binding(ctx, fn, read):
                     elif g.name == 'get_tree' or nm == 'copulas.multivariate.tree.get_tree':
                         attr = 'ctor:tree_type'
                         break
+                    elif any(isinstance(x, ast.Call) and prog.resolve(g.module, x.func) == 'pandas.DataFrame' for x in ast.walk(g.node)):
+                        tag = 'frame'
+                    elif tag == 'id':
+                        tag = 'unknown'
+                elif isinstance(par.func, ast.Name) and par.func.id == 'map' and par.args and isinstance(par.args[0], ast.Attribute) \
+                        and par.args[0].attr == 'from_dict':
+                    tag = 'dicts'
+                elif isinstance(par.func, ast.Name) and par.func.id in ('list', 'tuple', 'iter', 'enumerate', 'reversed', 'zip'):
+                    pass
+                elif tag == 'id' and not (isinstance(par.func, ast.Attribute) and par.func.attr in ('extend', 'append', 'update', 'get', 'pop')):
+                    tag = 'unknown'
         elif isinstance(par, ast.keyword):
             cur = par
             par = getattr(par, '_parent', None)
@@ -427,6 +438,9 @@ def pair(ctx, rep, cls, w, r):
             continue
         if (wtag, rtag) in COMPATIBLE:
             rep.ok('D3.transform', rd.fn, rd.node, f"'{k}': {wtag} <-> {rtag}", construct=f"'{k}'")
+        elif rtag == 'unknown':
+            rep.undecided('D3.transform', rd.fn, rd.node, f"'{k}' is written as {wtag}; how it is read back (through a call that is not modelled) is not derived",
+                          construct=f"'{k}'")
         else:
             rep.bad('D3.transform', rd.fn, rd.node, f"'{k}' is written as {wtag} but read back as {rtag}: the restored "
                     'attribute has a different type than the original', construct=f"'{k}'")
